@@ -3,5 +3,5 @@ NEXT Next
 CONSTANT Tier = "quick"
 CONSTANT MaxCalls = 4
 ACTION_CONSTRAINT Emit
-INVARIANT SingleOK BalancedOK OpenOK OnlyBalanced
+INVARIANT SingleOK BalancedOK OpenOK OnlyBalanced IterOK
 CHECK_DEADLOCK FALSE
